@@ -1,1 +1,29 @@
-pub fn dump() {}
+//! C18: dump the compiled statics (re-exported under cfg(unic_locale_verif)) as ndjson events.
+#[cfg(feature = "likelysubtags")]
+pub fn dump() {
+    use serde_json::{json, Value};
+    use unic_langid_impl::likelysubtags::{CLDR_VERSION, LANG_ONLY, LANG_REGION, LANG_SCRIPT, REGION_ONLY, SCRIPT_ONLY, SCRIPT_REGION};
+    use unic_langid_impl::verif_tables::*;
+    fn b8(x: u64) -> Value { json!(x.to_le_bytes().to_vec()) }
+    fn b4(x: u32) -> Value { json!(x.to_le_bytes().to_vec()) }
+    fn val(v: &(Option<u64>, Option<u32>, Option<u32>)) -> Value {
+        json!([v.0.map(b8).unwrap_or(json!([])), v.1.map(b4).unwrap_or(json!([])), v.2.map(b4).unwrap_or(json!([]))])
+    }
+    let none = json!([[], [], []]);
+    println!("{}", json!({"t":"CLDR_VERSION","i":0,"text": CLDR_VERSION.bytes().collect::<Vec<u8>>(),"k1":[],"k2":[],"v": none}));
+    for (i, (k, v)) in LANG_ONLY.iter().enumerate() { println!("{}", json!({"t":"LANG_ONLY","i":i,"k1":b8(*k),"k2":[],"v":val(v)})); }
+    for (i, (k, k2, v)) in LANG_REGION.iter().enumerate() { println!("{}", json!({"t":"LANG_REGION","i":i,"k1":b8(*k),"k2":b4(*k2),"v":val(v)})); }
+    for (i, (k, k2, v)) in LANG_SCRIPT.iter().enumerate() { println!("{}", json!({"t":"LANG_SCRIPT","i":i,"k1":b8(*k),"k2":b4(*k2),"v":val(v)})); }
+    for (i, (k, k2, v)) in SCRIPT_REGION.iter().enumerate() { println!("{}", json!({"t":"SCRIPT_REGION","i":i,"k1":b4(*k),"k2":b4(*k2),"v":val(v)})); }
+    for (i, (k, v)) in SCRIPT_ONLY.iter().enumerate() { println!("{}", json!({"t":"SCRIPT_ONLY","i":i,"k1":b4(*k),"k2":[],"v":val(v)})); }
+    for (i, (k, v)) in REGION_ONLY.iter().enumerate() { println!("{}", json!({"t":"REGION_ONLY","i":i,"k1":b4(*k),"k2":[],"v":val(v)})); }
+    for (i, k) in SCRIPTS_CHARACTER_DIRECTION_LTR.iter().enumerate() { println!("{}", json!({"t":"SCRIPTS_LTR","i":i,"k1":b4(*k),"k2":[],"v":none})); }
+    for (i, k) in SCRIPTS_CHARACTER_DIRECTION_RTL.iter().enumerate() { println!("{}", json!({"t":"SCRIPTS_RTL","i":i,"k1":b4(*k),"k2":[],"v":none})); }
+    for (i, k) in SCRIPTS_CHARACTER_DIRECTION_TTB.iter().enumerate() { println!("{}", json!({"t":"SCRIPTS_TTB","i":i,"k1":b4(*k),"k2":[],"v":none})); }
+    for (i, k) in LANGS_CHARACTER_DIRECTION_RTL.iter().enumerate() { println!("{}", json!({"t":"LANGS_RTL","i":i,"k1":b8(*k),"k2":[],"v":none})); }
+}
+#[cfg(not(feature = "likelysubtags"))]
+pub fn dump() {
+    eprintln!("tables: built without the likelysubtags feature");
+    std::process::exit(2);
+}
